@@ -36,7 +36,12 @@ var lockRanges = [...]struct{ off, len uint64 }{
 	{0, 10},
 	{20, 10},
 	{100, 0xffffffffffffffff},
+	// Not a valid byte range (zero length): NFS4ERR_INVAL.
+	{5, 0},
 }
+
+// invalidRange is the index of the malformed entry of lockRanges.
+const invalidRange = 3
 
 func opPutFH(fh fhRef, rootFH []byte) []nfsv4.NfsArgop4 {
 	switch fh.kind {
